@@ -210,10 +210,11 @@ class _PythonFnFactory(object):
     # The lint override is a false positive.
     new_fn = bound_factory(**self._extra_locals)  # pylint:disable=not-callable
 
-    if defaults:
-      new_fn.__defaults__ = defaults
-    if kwdefaults:
-      new_fn.__kwdefaults__ = kwdefaults
+    # Always installed, also when empty: the generated code carries placeholder
+    # defaults, and a cached factory may be shared by functions with equal code
+    # objects of which only some have defaults.
+    new_fn.__defaults__ = defaults
+    new_fn.__kwdefaults__ = kwdefaults
 
     return new_fn
 
